@@ -2757,6 +2757,20 @@ func (uconn *UConn) applyPresetByID(id ClientHelloID) (err error) {
 		}
 
 		uconn.clientHelloSpec = &spec
+	} else {
+		// The cached spec is applied again (BuildHandshakeStateWithoutSession
+		// followed by another build): forget the key shares generated by the
+		// previous application, otherwise their data is kept while the private
+		// keys are replaced, and the TLS 1.3 key exchange cannot succeed.
+		for _, e := range uconn.clientHelloSpec.Extensions {
+			if ks, ok := e.(*KeyShareExtension); ok {
+				for i := range ks.KeyShares {
+					if !isGREASEUint16(uint16(ks.KeyShares[i].Group)) {
+						ks.KeyShares[i].Data = nil
+					}
+				}
+			}
+		}
 	}
 
 	return uconn.ApplyPreset(uconn.clientHelloSpec)
